@@ -11,7 +11,8 @@ use crate::scenario::{Scenario, Violation};
 
 fn gen(t: &mut Tape, _tier: Tier) -> Scenario {
     let mut sc = Scenario::new("c08");
-    let b = if t.below(12) == 0 { gen_long(t, 0) } else { gen_lzma(t, 0, 2500) };
+    // a quarter of the streams may run to several windows of the smallest dictionaries
+    let b = if t.below(12) == 0 { gen_long(t, 0) } else if t.below(4) == 0 { gen_lzma(t, 0, 30_000) } else { gen_lzma(t, 0, 2500) };
     let mut opts = OptSpec::default();
     opts.mode = t.below(3);
     let l = b.expect.len() as u64;
